@@ -1081,3 +1081,19 @@ func (d *c13Distinct) n() int64 {
 	defer d.mu.Unlock()
 	return int64(len(d.m))
 }
+
+// c13Sampler hands out a few sample slots per part (the evidence keeps 12 samples over all parts).
+type c13Sampler struct {
+	mu sync.Mutex
+	n  int
+}
+
+func (s *c13Sampler) take() bool {
+	s.mu.Lock()
+	defer s.mu.Unlock()
+	if s.n >= 3 {
+		return false
+	}
+	s.n++
+	return true
+}
